@@ -20,12 +20,14 @@ class CrashNow(BaseException):
 
 
 class _FFile:
-    def __init__(self, fs, path, mode, encoding):
+    def __init__(self, fs, path, mode, encoding, opener=None):
         self.fs = fs
         self.path = path
         self.text = "b" not in mode
         self.encoding = encoding or "utf-8"
-        self.raw = builtins.open(path, "wb")
+        # the real file is opened the way the library asked for it (mode and opener decide about truncation)
+        raw_mode = ("a" if "a" in mode else "w") + "b"
+        self.raw = builtins.open(path, raw_mode, opener=opener) if opener is not None else builtins.open(path, raw_mode)
         self.closed = False
         self.pybuf = []  # buffered mode: data that has not been handed to the OS yet
         fs.fds[self.raw.fileno()] = self
@@ -157,7 +159,7 @@ class FaultFS:
         self.point(("open", _os.path.basename(path), mode))
         if self.crashed:
             raise CrashNow()
-        return _FFile(self, path, mode, kwargs.get("encoding"))
+        return _FFile(self, path, mode, kwargs.get("encoding"), kwargs.get("opener"))
 
     on_point = None  # optional callable(op): lets a thread scheduler treat file operations as scheduling points
 
